@@ -1,13 +1,14 @@
 (** C09 — atom operations are atomic, never lose updates and never hang. *)
 From Coq Require Import Permutation.
-From Lisp Require Import Base ConcAtom ConcAtomProofs LinCheck LinCheckProofs Lockset LocksetProofs PinsCommon PinsAtom.
+From Lisp Require Import Base ConcAtom ConcAtomProofs LinCheck LinCheckProofs Lockset LocksetProofs Paths PinsCommon PinsAtom.
 From Lisp.Gen Require Import ConcActions.
 
-(** the model interprets exactly the action sequences of today's source (regenerated each run) *)
-Theorem C09_source_swap : conc_swap_BANG = expected_swap. Proof. exact swap_actions. Qed.
-Theorem C09_source_reset : conc_reset_BANG = expected_reset. Proof. exact reset_actions. Qed.
-Theorem C09_source_deref : conc_Atom_Deref = expected_deref. Proof. exact deref_actions. Qed.
-Theorem C09_source_print : conc_Atom_LispPrint = expected_print. Proof. exact print_actions. Qed.
+(** the model follows exactly the synchronisation paths of today's source (regenerated each run; path sets
+    with deferred unlocks expanded, so a defer and explicit unlocks on every path are the same thing) *)
+Theorem C09_source_swap : same_paths (fn_paths conc_swap_BANG) swap_paths = true. Proof. exact swap_actions. Qed.
+Theorem C09_source_reset : same_paths (fn_paths conc_reset_BANG) reset_paths = true. Proof. exact reset_actions. Qed.
+Theorem C09_source_deref : same_paths (fn_paths conc_Atom_Deref) deref_paths = true. Proof. exact deref_actions. Qed.
+Theorem C09_source_print : same_paths (fn_paths conc_Atom_LispPrint) print_paths = true. Proof. exact print_actions. Qed.
 
 (** every function of concurrent.go, on every path, accesses Atom.Val (and the future flags) only
     while holding the object's lock in a sufficient mode, and returns with its locks balanced *)
